@@ -44,7 +44,7 @@ func init() {
 		Explanation: "decides the order of the client's apply steps, that the client checkpoint only moves forward, the order and error-gating of the server's steps, that a pull is a log-ordered range from the client's checkpoint, and that the checkpoint arithmetic has the intended normal forms; plus the server's accept/ignore/fail partition and the own-operation filter. NOT decided: exactly-once application and equality of client and server state over whole histories (run-time quantities; F15 shows the intended formulas are not sufficient under message loss).",
 		Assumptions: []string{"the normal forms encoded in R05.5 are the protocol's intended ones"},
 		Rules: []ruleFn{ruleR05_1, ruleR05_2, ruleR05_3, ruleR05_4, ruleR05_5,
-			func(w *World, r *Report) { ruleR06_1(w, r, false) }, ruleR07_3},
+			func(w *World, r *Report) { ruleR06_1(w, r, false) }, ruleR07_3, ruleR15_4, ruleR13_3},
 	})
 	register(&propertySpec{
 		ID: "C06", NeedsServer: true,
@@ -109,5 +109,23 @@ func init() {
 		Explanation: "decides the server's (option bits, case) dispatch table against the contract (known finding F13: six cells proceed instead of refusing), that classification consults type, visibility and subscription, the client's state machine (SUBSCRIBED only from DUE_TO_*, handler iff old != new, refusal reaches the error handler, reset order), and that the client turns every refusal code into a returned error. NOT decided: exactly one datatype under racing creators (needs the lock to hold and MongoDB's uniqueness); the first state of a subscriber.",
 		Assumptions: []string{"the push-pull lock serialises requests of one key (C12)"},
 		Rules:       []ruleFn{ruleR13_1, ruleR13_2, ruleR13_3, ruleR08_3, ruleR12_4},
+	})
+}
+
+func init() {
+	register(&propertySpec{
+		ID: "C14", NeedsServer: true,
+		Explanation: "decides that the encode, decode, store and echo tables agree exhaustively: constructor constant/body type = decoder arm = getter assertion for all operation types; every enum value has a decoder arm; body structs are fully serialisable; the snapshot type arithmetic; the stored document keeps and restores every field of an operation and its field-name tables name existing bson keys; the echo copies every body field; local and decoded construction agree on container kinds. NOT decided: value fidelity (integers above 2^53, invalid UTF-8, nil vs empty slices) and the absence of decode panics on arbitrary bytes.",
+		Assumptions: []string{"encoding/json and protobuf round-trip the listed field types"},
+		Rules:       []ruleFn{ruleR14_1, ruleR14_2, ruleR14_3, ruleR14_4, ruleR14_5, ruleR14_6},
+	})
+}
+
+func init() {
+	register(&propertySpec{
+		ID: "C15",
+		Explanation: "decides that the identity key of a timestamp is an injective format, that comparison is the lexicographic sign function (a total order on distinct (Era, Lamport, CUID)), that every element created repeatedly within one operation takes a fresh delimiter, that the numbering of operation ids has a closed set of writers with the expected increments and resets, and that the clock is synchronised before every remote apply. NOT decided: gaplessness of a client's numbering across whole histories with failures and rollbacks (R03.3/R09.x give the local pairing only).",
+		Assumptions: []string{"client ids are unique"},
+		Rules:       []ruleFn{ruleR15_1, ruleR02_1, ruleR15_3, ruleR15_4, ruleR15_5, ruleR13_3, ruleR03_3},
 	})
 }
